@@ -72,6 +72,9 @@ var vfC21Faults = []vfC21Fault{
 	{"trailing-second-stream", "must"},
 	{"oversize-encoded", "must"},
 	{"oversize-decoded", "must"},
+	// an UNCOMPRESSED body just over the decoded limit: with maxEncoded > maxDecoded it is
+	// inside the encoded limit, so only the decoded-size check can refuse it
+	{"oversize-decoded-identity", "must"},
 	{"cursor-stripped", "must"}, // only meaningful where a cursor is required, see vfC21MustFail
 	{"reencoded-gzip", "benign"},
 	{"reencoded-identity", "benign"},
@@ -249,9 +252,10 @@ type vfC21Req struct {
 type vfC21Flip = func(wire, plain []byte, compressed bool) (pos int, mask byte)
 
 type vfC21RT struct {
-	cancel func() // cancels the context the harness passed to the client call in flight
-	h    http.Handler
-	reqs []*vfC21Req
+	maxEnc, maxDec int64  // the limits the client under test was built with
+	cancel         func() // cancels the context the harness passed to the client call in flight
+	h              http.Handler
+	reqs           []*vfC21Req
 	// pick chooses the fault for response k; wire is the server's encoded body
 	// (nil when asked before the server ran).
 	pick func(k int) (fault string, flipPos func(wire, plain []byte, compressed bool) (pos int, mask byte))
@@ -407,12 +411,15 @@ func (rt *vfC21RT) RoundTrip(req *http.Request) (*http.Response, error) {
 		out = append(append([]byte{}, plain...), vfStreamBytes(vfOutSchema, vfI64Batch("v", 42))...)
 		setEnc("")
 	case "oversize-encoded":
-		out = vfC21BigStream(plain, vfC21MaxEncoded/8+64) // > maxEncoded on the wire, identity
+		out = vfC21BigStream(plain, int(rt.maxEnc)/8+64) // > maxEncoded on the wire, identity
 		setEnc("")
 	case "oversize-decoded":
-		big := vfC21BigStream(plain, vfC21MaxDecoded/8+64) // decodes to > maxDecoded, tiny on the wire
+		big := vfC21BigStream(plain, int(rt.maxDec)/8+64) // decodes to > maxDecoded, tiny on the wire
 		out = vfC21ZEnc.EncodeAll(big, nil)
 		setEnc("zstd")
+	case "oversize-decoded-identity":
+		out = vfC21BigStream(plain, int(rt.maxDec)/8+64) // > maxDecoded, sent without any Content-Encoding
+		setEnc("")
 	case "cursor-stripped":
 		rew, err := vfC21Rewrite(plain, func(s *arrow.Schema) *arrow.Schema { return s },
 			func(rec arrow.RecordBatch, keys, vals []string, ns *arrow.Schema) arrow.RecordBatch {
@@ -621,7 +628,11 @@ func vfC21Turn(kind string) VfTurn {
 	return VfTurn{Emit: 1, Rows: 1}
 }
 
-func vfC21NewWorld(x *venum.X, compress bool, turns []VfTurn, pick func(k int) (string, vfC21Flip)) *vfC21World {
+func vfC21NewWorld(x *venum.X, compress bool, turns []VfTurn, pick func(k int) (string, vfC21Flip), limits ...int64) *vfC21World {
+	maxEnc, maxDec := int64(vfC21MaxEncoded), int64(vfC21MaxDecoded)
+	if len(limits) == 2 {
+		maxEnc, maxDec = limits[0], limits[1]
+	}
 	vfResetEvents()
 	s := NewServer()
 	Unary(s, "u", func(ctx context.Context, cc *CallContext, p VfXParams) (int64, error) {
@@ -648,10 +659,10 @@ func vfC21NewWorld(x *venum.X, compress bool, turns []VfTurn, pick func(k int) (
 		h.SetCompressionLevel(0)
 	}
 	w := &vfC21World{}
-	w.rt = &vfC21RT{h: h, pick: pick}
+	w.rt = &vfC21RT{h: h, pick: pick, maxEnc: maxEnc, maxDec: maxDec}
 	c, err := NewHttpClient("http://srv.test",
 		WithClientHTTPClient(&http.Client{Transport: w.rt}),
-		WithClientResponseLimits(vfC21MaxEncoded, vfC21MaxDecoded),
+		WithClientResponseLimits(maxEnc, maxDec),
 		WithClientLogHandler(func(m LogMessage) { w.logs = append(w.logs, string(m.Level)+":"+m.Message) }))
 	if err != nil {
 		panic(err)
@@ -953,8 +964,11 @@ func TestVerif_C21(t *testing.T) {
 			// a schema fault could turn the response into the (wrong) declared schema; keep the two dimensions apart
 			pick = func(int) (string, vfC21Flip) { return "ok", nil }
 		}
-		w := vfC21NewWorld(x, compress, turns, pick)
-			switch api {
+		// both orders of the two limits: with maxEncoded < maxDecoded only the encoded check can refuse
+		// a mid-sized identity body, with maxEncoded > maxDecoded only the decoded check can
+		lim := [][2]int64{{vfC21MaxEncoded, vfC21MaxDecoded}, {4 * vfC21MaxEncoded, vfC21MaxDecoded}}[x.Choose(2, "limits")]
+		w := vfC21NewWorld(x, compress, turns, pick, lim[0], lim[1])
+		switch api {
 		case "exchange":
 			vfC21Exchange(x, w, kinds, ClientStreamSchema{Input: vfInSchema, Output: d.out}, d.name == "exact", initX)
 		case "producer":
@@ -1081,7 +1095,7 @@ func TestVerif_C21(t *testing.T) {
 			turns = append(turns, vfC21Turn(last))
 		}
 		w := vfC21NewWorld(x, compress, turns, devFault(x))
-			var st *HttpClientStream
+		var st *HttpClientStream
 		err, pan := vfC21Call(func() error {
 			var e error
 			st, e = w.client.OpenProducer(w.ctx(), "prod", vfI64Batch("x", 0), ClientStreamSchema{Output: vfOutSchema})
